@@ -1,2 +1,3 @@
 /* representation invariant of Simulate8008: sp indexes stack[8] (masked with & 7 at every write) */
 #define WF(s) ((s).sp < 8)
+#define PCVAL(s) ((unsigned)(s).pc)
